@@ -291,7 +291,7 @@ def Rej.toString : Rej → String
 
 /-- the admission checks of `InsertEvent` in source order: Verify, checkSelfParent, checkOtherParent
     (the creator test is `LastEventFrom`'s UnknownParticipant error) -/
-def St.admit (s : St) (e : Ev) : Option Rej :=
+def St.admission (s : St) (e : Ev) : Option Rej :=
   if !e.sigok then some .badSig else
   if !s.repertoire.contains e.creator then some .unknownCreator else
   match s.lastFrom e.creator with
@@ -518,6 +518,31 @@ def St.applyReceipts (s : St) (rr : Int) (itxs : List (Bool × Nat)) : St :=
   if s.peerSets.any (·.1 == eff) then s   -- `SetPeerSet` refuses a second entry; core returns the error before updating validators
   else { s with validators := v, peerSets := insertPeerSet s.peerSets eff v, repertoire := v.foldl addRep s.repertoire }
 
+/-- `NewBlockFromFrame` + the test of `ProcessDecidedRounds`: a block exists only for a non-empty frame
+    carrying a transaction or an internal transaction -/
+def blockOf (index r : Int) (frame : Frame) (sorted : List Ev) : Option Block :=
+  let txs := (sorted.map (·.txs)).flatten
+  let itxs := (sorted.map (·.itx)).flatten
+  if Gen.cmpFrameNonEmpty.evalN sorted.length 0 &&
+     (Gen.cmpBlockHasTx.evalN txs.length 0 || Gen.cmpBlockHasItx.evalN itxs.length 0) then
+    some { index := index, rr := r, ts := frame.ts, txs := txs, itx := itxs,
+           events := sorted.map (·.id), peers := frame.peers }
+  else none
+
+/-- `SetBlock` + commit callback -/
+def St.addBlock (s : St) (b : Block) : St :=
+  ({ s with blocks := s.blocks ++ [b], lastBlock := s.lastBlock + 1 }).applyReceipts b.rr b.itx
+
+def St.addFrame (s : St) (frame : Frame) (sorted : List Ev) : St :=
+  { s with frames := s.frames ++ [frame],
+           lastCons := if Gen.cmpFrameNonEmpty.evalN sorted.length 0 then sorted.foldl setLastCons s.lastCons else s.lastCons }
+
+def St.popPending (s : St) (r : Int) (rest : List (Int × Bool)) : St :=
+  { s with pending := rest,
+           lcr := match s.lcr with
+                  | none => some r
+                  | some l => if r > l then some r else some l }
+
 /-- process the first pending round if it is decided; `none` when the pass stops -/
 def St.processOne (s : St) : Option St :=
   match s.pending with
@@ -527,23 +552,11 @@ def St.processOne (s : St) : Option St :=
     match s.getRound r with
     | none => none
     | some ri =>
-      let (frame, sorted) := s.getFrame r ri
-      let s := { s with frames := s.frames ++ [frame] }
-      let s := if Gen.cmpFrameNonEmpty.evalN sorted.length 0 then
-          let s := { s with lastCons := sorted.foldl setLastCons s.lastCons }
-          let txs := (sorted.map (·.txs)).flatten
-          let itxs := (sorted.map (·.itx)).flatten
-          if Gen.cmpBlockHasTx.evalN txs.length 0 || Gen.cmpBlockHasItx.evalN itxs.length 0 then
-            let b : Block := { index := s.lastBlock + 1, rr := r, ts := frame.ts, txs := txs, itx := itxs,
-                               events := sorted.map (·.id), peers := frame.peers }
-            let s := { s with blocks := s.blocks ++ [b], lastBlock := s.lastBlock + 1 }
-            s.applyReceipts r itxs
-          else s
-        else s
-      some { s with pending := rest,
-                    lcr := match s.lcr with
-                           | none => some r
-                           | some l => if r > l then some r else some l }
+      let fs := s.getFrame r ri
+      let s1 := s.addFrame fs.1 fs.2
+      match blockOf (s.lastBlock + 1) r fs.1 fs.2 with
+      | some b => some ((s1.addBlock b).popPending r rest)
+      | none => some (s1.popPending r rest)
 
 def St.processLoop (s : St) : Nat → St
   | 0 => s
@@ -558,7 +571,7 @@ def St.runConsensus (s : St) : St :=
 
 /-- `InsertEventAndRunConsensus` -/
 def St.insertAndRun (s : St) (e : Ev) : St × Option Rej :=
-  match s.admit e with
+  match s.admission e with
   | some r => (s, some r)
   | none => ((s.insert e).runConsensus, none)
 
